@@ -166,6 +166,9 @@ def _check_main(ctx, rep: Report):
 def check(ctx, rep):
     from . import keyedrules, metarules, shared
     _check_main(ctx, rep)
+    from . import metarules, r5rules
+    r5rules.repr_order(ctx, rep, "C10.REPR")
+    r5rules.refresh_rules(ctx, rep, "C10.REFRESH")
     keyedrules.order_bearing(ctx, rep, "C10.CONT")
     keyedrules.keyedset_eq(ctx, rep, "C10.CONTSET")
     metarules.deepcopy_memo(ctx, rep, "C10.DC")
